@@ -46,7 +46,12 @@ def eos_families(tier: str, seed_tag="eos"):
         if not (0.5 <= psi < 1.0 and 1e-3 < e.alpha(e.Tnucl) < 0.8):
             continue          # outside the property's quantifier (enthalpy ratio 0.5..1)
         fams.append((f"template{i}:" + ",".join(f"{k}={v:.4g}" for k, v in p.items()), e))
+    # polynomial two-step EOS (temperature-dependent sound speeds in both phases)
+    for Tn in ((0.6,) if tier == "quick" else (0.5, 0.6, 0.7, 0.9)):
+        fams.append((f"twostep:abrok=0.2,asym=0.1,musq=0.4,Tn={Tn}", models.twostep_eos(Tn=Tn)))
     # numerically traced potentials (real Thermodynamics class)
+    th2c, _m2, _i2 = models.make_thermo("toy2c", {}, TnFrac=0.6, tminFrac=0.5, tmaxFrac=1.12)
+    fams.append(("toy2c(two-step, traced):TnFrac=0.6", th2c))
     toys = [(dict(), 0.6), (dict(E=0.07, lam=0.12), 0.5)]
     if tier == "thorough":
         toys += [(dict(D=0.15, E=0.08, lam=0.11, a=5.0), 0.7), (dict(u=25.0), 0.6)]
@@ -166,8 +171,8 @@ def velocities(h, r, n, lo=None, hi=0.99):
     """n wall velocities covering the three branches."""
     lo = max(h.vMin, 0.02) if lo is None else lo
     cs = math.sqrt(float(h.thermodynamics.csqLowT(h.Tnucl)))
-    pts = [lo * 1.02 + 1e-3, 0.5 * (lo + cs), cs * 0.98, cs * 1.02, 0.5 * (cs + h.vJ), h.vJ - 2e-3, h.vJ + 2e-3,
-           0.5 * (h.vJ + hi), hi]
+    pts = [lo * 1.02 + 1e-3, 0.5 * (lo + cs), cs * 0.98, cs * 1.02, 0.5 * (cs + h.vJ), h.vJ - 4e-3, h.vJ - 2e-3, h.vJ - 5e-4,
+           h.vJ + 2e-3, 0.5 * (h.vJ + hi), hi]
     pts = [v for v in pts if lo < v <= hi]
     while len(pts) < n:
         pts.append(r.uniform(lo * 1.01 + 1e-3, hi))
